@@ -195,6 +195,9 @@ func CheckC06(e *fw.Env, l *Lab) {
 			if denom == world.USDC && amt.Cmp(world.BurnLimit.BigInt()) <= 0 {
 				mint[31] = byte(1 + e.R.Intn(200))
 				rt = spec.Route{Kind: "cctp", Domain: 5, MintRecipient: append([]byte(nil), mint...)}
+				if e.R.Intn(2) == 0 {
+					rt.Caller = append([]byte(nil), mint...)
+				}
 			} else {
 				rt = spec.Route{Kind: "internal", To: w.K("rcpt3").String()}
 			}
